@@ -107,6 +107,17 @@ def streams(ctx):
     for sh in SHAPES:
         docs.append(("npm", '{"dependencies":{"k":"npm:' + sh + '"}}', "shape"))
         docs.append(("jsr", '{"imports":{"k":"jsr:' + sh + '"}}', "shape"))
+    # JSON string tokens with escape sequences, well formed and not (the decoded value is the string; an undecodable
+    # token keeps the text between its quotes), as keys, values and section names
+    ESC = ['\\u0040types\\/node', '@types\\/node', '\\u00e9-pkg', 'a\\"b', 'a\\\\', 'a\\', '\\q', '\\u12', '\\ud83d\\ude00', '\\ud83d', '\\ude00x', '\\ud83d\\u0041',
+           '\\u0000', 'tab\\tx', 'a\\nb', '\\u005e1.0.0', '1.0.0\\u0020', '\\b\\f\\r', 'x\u0001y', '\\U0041', 'npm:real\\u0040^1.0.0', 'jsr:@s\\/x@\\u005e1',
+           'work\\u0073pace:*', '\\', 'é\\u00e9', '\\u00E9', '\\/\\/']
+    for a in ESC:
+        for b in ["1.0.0", a]:
+            docs.append(("npm", '{"dependencies":{"' + a + '":"' + b + '"}}', "escape"))
+            docs.append(("jsr", '{"imports":{"' + a + '":"jsr:@std/x@' + b + '"}}', "escape"))
+        docs.append(("npm", '{"de\\u0070endencies":{"x":"' + a + '"}, "' + a + '":{"y":"1.0.0"}}', "escape"))
+        docs.append(("jsr", '{"\\u0069mports":{"x":"' + a + '"}}', "escape"))
     ca = [{"req": vlib.line("l.parse", e, t), "eco": e, "tag": None} for e, t, _ in docs]
 
     def derive_a(cs, impl):
@@ -139,9 +150,10 @@ def streams(ctx):
     def derive_b(cs, impl):
         der = []
         # the premise of the layout theorems (c04_npm_layout_invariant, c04_deno_layout_invariant) on REAL trees: a manifest and
-        # its re-rendering under another layout read as the same abstract JSON (escapes excluded: they change the string text, F-C04-6)
-        pairs = [i for i in range(0, len(meta) - 1, 2) if meta[i][0] in ("npm", "jsr") and not meta[i][2]["escape"] and not meta[i + 1][2]["escape"]
-                 and meta[i][2]["nonascii"] == meta[i + 1][2]["nonascii"]]      # (the renderer's "nonascii" option edits the manifest's own name VALUE)[: (150 if quick else 4000)]
+        # its re-rendering under another layout (escaped spellings included) read as the same abstract JSON
+        # (the renderer's "nonascii" option edits the manifest's own name VALUE: pairs that differ in it are left out)
+        pairs = [i for i in range(0, len(meta) - 1, 2) if meta[i][0] in ("npm", "jsr") and meta[i][2]["nonascii"] == meta[i + 1][2]["nonascii"]]
+        pairs = pairs[: (150 if quick else 4000)]
         idxs = [j for i in pairs for j in (i, i + 1)]
         dumps = vlib.run_impl([vlib.line("ts.dump", meta[j][0], meta[j][3]) for j in idxs])
         absr = vlib.run_model([vlib.line("x.abs", meta[j][0], meta[j][3], d) for j, d in zip(idxs, dumps)])
